@@ -14,6 +14,7 @@ OUT="$V/seeded/matrix.txt"; : > "$OUT"
 echo "# seeded change: checks (quick tier) that report it; mode=$MODE; repository $(git -C "$R" rev-parse --short HEAD)" >> "$OUT"
 for d in "$V"/seeded/C*/; do
   id=$(basename "$d")
+  if grep -q '"neutralised_by"' "$d/meta.json" 2>/dev/null; then echo "$id: (neutralised by a later fix, see meta.json)" | tee -a "$OUT"; continue; fi
   git -C "$R" checkout -q -- . ; git -C "$R" apply "$d/patch.diff" || { echo "$id: patch does not apply" | tee -a "$OUT"; continue; }
   if [ -n "${CHECKS:-}" ]; then L="$CHECKS"; elif [ "$MODE" = all ]; then L=$(seq -f 'C%02g' 1 20); else L=${id%%-*}; fi
   line="$id:"
